@@ -119,17 +119,23 @@ func (k *KerberosProxy) forward(realm string, data []byte) (resp []byte, err err
 		return nil, fmt.Errorf("cannot get any kdcs (tcp or udp) for realm %s", realm)
 	}
 
-	// merge the kdcs
-	kdcs := make([]Kdc, tcpCnt+udpCnt)
-	for i := range udpKdcs {
-		kdcs[i] = Kdc{Realm: realm, Host: udpKdcs[i], Proto: "udp"}
+	// merge the kdcs; GetKDCs returns maps keyed 1..n in order of preference
+	kdcs := make([]Kdc, 0, tcpCnt+udpCnt)
+	for i := 1; i <= udpCnt; i++ {
+		kdcs = append(kdcs, Kdc{Realm: realm, Host: udpKdcs[i], Proto: "udp"})
 	}
-	for i := range tcpKdcs {
-		kdcs[i+udpCnt] = Kdc{Realm: realm, Host: tcpKdcs[i], Proto: "tcp"}
+	for i := 1; i <= tcpCnt; i++ {
+		kdcs = append(kdcs, Kdc{Realm: realm, Host: tcpKdcs[i], Proto: "tcp"})
 	}
 
 	replies := make(chan []byte, len(kdcs))
+	started := 0
 	for i := range kdcs {
+		// over UDP the message is sent without its 4 byte length prefix
+		if kdcs[i].Proto == "udp" && len(data) < 4 {
+			continue
+		}
+
 		conn, err := net.Dial(kdcs[i].Proto, kdcs[i].Host)
 
 		if err != nil {
@@ -151,17 +157,30 @@ func (k *KerberosProxy) forward(realm string, data []byte) (resp []byte, err err
 		}
 
 		kdcs[i].Conn = conn
+		started++
 		go awaitReply(conn, kdcs[i].Proto == "udp", replies)
 	}
 
-	reply := <-replies
+	// the first reply wins; every started reader reports exactly once (its
+	// connection carries a deadline), so wait for all of them
+	var reply []byte
+	for ; started > 0; started-- {
+		r := <-replies
+		if r != nil && reply == nil {
+			reply = r
+			// close all the connections so that the other readers return
+			for kdc := range kdcs {
+				if kdcs[kdc].Conn != nil {
+					kdcs[kdc].Conn.Close()
+				}
+			}
+		}
+	}
 
-	// close all the connections and return the first reply
 	for kdc := range kdcs {
 		if kdcs[kdc].Conn != nil {
 			kdcs[kdc].Conn.Close()
 		}
-		<-replies
 	}
 
 	if reply != nil {
